@@ -113,12 +113,23 @@ def run_shard(params):
                     valve.__dict__.pop("target", None)
                     valve.__dict__.pop("error", None)
                     clock.t = 1000.0
+                    valve.movingTime = moving
                     valve.reset()
                     m_coil, m_target, m_error = False, False, False
                     m_last = clock.t
                     nontriv = False
                     ok = True
-                    for (tgl, o, c, adv) in hist:
+                    mt = moving
+                    # in some histories the moving time is re-configured
+                    # after the first update (halved / doubled): "the moving
+                    # time" is the one in force when the device looks
+                    change = (moving / 2 if nhist % 2 else moving * 2) \
+                        if nhist % 3 == 0 and len(hist) >= 2 else None
+                    if change is not None:
+                        res.count("histories_with_a_moving_time_change")
+                    for stepno, (tgl, o, c, adv) in enumerate(hist):
+                        if stepno == 1 and change is not None:
+                            valve.movingTime = mt = change
                         clock.t += adv
                         if tgl:
                             valve.target = not valve.target
@@ -139,7 +150,7 @@ def run_shard(params):
                             if confirm:
                                 m_last = clock.t
                                 m_coil = m_target
-                            elif clock.t - m_last < moving:
+                            elif clock.t - m_last < mt:
                                 m_coil = m_target
                             else:
                                 m_error = True
@@ -148,7 +159,10 @@ def run_shard(params):
                                     (m_coil, m_target, m_error):
                                 res.violation(
                                     "unexplained:automaton",
-                                    f"movingTime {moving}: after {hist} "
+                                    f"movingTime {moving}"
+                                    + (f" (changed to {change} after the "
+                                       f"first update)" if change else "")
+                                    + f": after {hist} "
                                     f"device has coil/target/error "
                                     f"{(g_coil, g_target, g_error)}, "
                                     f"automaton "
